@@ -201,6 +201,11 @@ class C36(core.Check):
             # D36c: narrower screen with the key bar on and the cursor right of the new width
             {'ops': [['K', 1], ['L', 1, 60, None], ['W', 40], ['P', [['v', [65]]]]]},
             {'ops': [['K', 1], ['P', [['v', [65] * 50], ';']], ['S', 1], ['W', 80], ['L', 2, 41, None], ['S', 0], ['W', 40]]},
+            # status line on row 25, then output in the window running past row 24 must scroll rows 1-24
+            {'ops': [['K', 0], ['L', 25, 1, None], ['P', [['v', [83, 84, 65, 84, 85, 83]], ';']], ['L', 24, 1, None],
+                     ['P', [['v', [65] * 100], ';']], ['P', [['v', [66] * 70]]], ['P', [['v', [67]]]]]},
+            {'ops': [['K', 0], ['L', 25, 70, None], ['P', [['v', [83, 84]], ';']], ['V', 3, 24], ['L', 24, 80, None],
+                     ['P', [['v', [65, 66, 67]], ';']], ['P', [['v', [68] * 81], ';']], ['F', 25, 70]]},
             # boundaries
             {'ops': [['P', [X80]], ['P', [X80, ';']], ['P', [['v', [89]]]]]},
             {'ops': [['L', 24, 1, None], ['P', [X80, ';']], ['P', [['v', [89]], ';']]]},
@@ -296,7 +301,7 @@ class C36(core.Check):
 
     def gen_cases(self, n):
         rng = self.rng
-        hist = {'general': 0, 'placement': 0, 'malformed': 0, 'print_ctrl': 0, 'ops': {}}
+        hist = {'general': 0, 'placement': 0, 'statusline': 0, 'malformed': 0, 'print_ctrl': 0, 'ops': {}}
         out = []
         for i in range(n):
             ops = []
@@ -313,6 +318,33 @@ class C36(core.Check):
                         width = op[1]
                     if op[0] == 'S' and op[1] in (1, 2):
                         width = 40 if op[1] == 1 else 80
+            elif fam == 8:
+                hist['statusline'] += 1
+                # KEY OFF: LOCATE 25,c: PRINT "...";  then LOCATE / VIEW PRINT t TO 24 and output running past row 24
+                if rng.random() < 0.3:
+                    op = rng.choice([['W', 40], ['S', 2], ['S', 1]])
+                    ops.append(op)
+                    width = 40 if op[1] in (40, 1) else 80
+                ops.append(['K', 0])
+                for _ in range(rng.choice([1, 1, 2, 3])):
+                    c0 = rng.choice([1, 1, width - 8, rng.randrange(1, width + 1)])
+                    ops.append(['L', 25, c0, None])
+                    ops.append(['P', [['v', self._plain_string(rng, width, c0)[:rng.choice([6, 6, width - c0 + 1, width])]], ';']])
+                    top = 1
+                    r = rng.random()
+                    if r < 0.5:
+                        top = rng.choice([1, 2, 20, 23, 24, rng.randrange(1, 25)])
+                        ops.append(['V', top, 24])
+                    if r > 0.3:
+                        ops.append(['L', rng.choice([24, 24, 23, rng.randrange(top, 25)]), rng.choice([1, width, rng.randrange(1, width + 1)]), None])
+                    for _ in range(rng.choice([1, 2, 3, 4])):
+                        n1 = rng.choice([width, width + 1, 2 * width, 3 * width + 5, 100, 255, rng.randrange(1, 256)])
+                        items = [['v', [65 + rng.randrange(26) for _ in range(min(255, n1))]]]
+                        if rng.random() < 0.7:
+                            items.append(';')
+                        ops.append(['P', items])
+                    if rng.random() < 0.5:
+                        ops.append(['F', 25, rng.randrange(1, width + 1)])
             elif fam < 9:
                 hist['placement'] += 1
                 # plain text on a cleared screen: setup, CLS, LOCATE, PRINTs of plain strings
@@ -528,7 +560,8 @@ class C36(core.Check):
             err = post['res'][1] if post['res'][0] == 1 else None
             i16 = lambda z: z is None or -32768 <= z <= 32767
             pw = pre['width']
-            normal = not pre['bra'] and pre['top'] <= pre['row'] <= pre['bot']
+            # the cursor is in the VIEW PRINT window (by what CSRLIN reported and the cursor row; no internal flag)
+            normal = pre['top'] <= pre['csrlin'] <= pre['bot'] and pre['top'] <= pre['row'] <= pre['bot']
             nowrapflags = not any(pre['wraps'])
             if op[0] == 'L':
                 r, c, cur = op[1], op[2], op[3]
@@ -584,26 +617,26 @@ class C36(core.Check):
                         return '%s: SCREEN() changed the screen or the cursor' % what
                 elif err != want:
                     return '%s: expected error %d, got %r' % (what, want, err)
-            elif op[0] == 'P':
-                items = op[1]
-                if all(it in (',', ';') or plain(it[1]) for it in items) and normal and nowrapflags:
-                    ref = self._ref(pre)
-                    ref.print_stmt(items)
-                    bad = self._same(ref, post, what + ' (plain text placement)')
-                    if bad:
-                        return bad
-                elif not pre['bra'] and all(it in (',', ';') or not (set(it[1]) & {12}) for it in items):
-                    # any PRINT without a form feed leaves the rows outside the window alone
+            elif op[0] in ('P', 'T'):
+                if normal:
+                    # output that starts inside the window stays inside the window ...
+                    if not (pre['top'] <= post['csrlin'] <= pre['bot'] and pre['top'] <= post['row'] <= pre['bot']):
+                        return '%s: output started at row %d inside the VIEW PRINT window %d-%d but the cursor ended on row %d (CSRLIN %d)' % (
+                            what, pre['csrlin'], pre['top'], pre['bot'], post['row'], post['csrlin'])
+                    # ... and never changes a row outside of it
                     for i in range(h):
-                        if not pre['top'] <= i + 1 <= pre['bot'] and pre['grid'][i] != post['grid'][i] and pre['row'] != i + 1:
+                        if not pre['top'] <= i + 1 <= pre['bot'] and pre['grid'][i] != post['grid'][i]:
                             return '%s: row %d outside the VIEW PRINT window %d-%d changed' % (
                                 what, i + 1, pre['top'], pre['bot'])
-            elif op[0] == 'T':
-                if not pre['bra']:
-                    for i in range(h):
-                        if not pre['top'] <= i + 1 <= pre['bot'] and pre['grid'][i] != post['grid'][i] and pre['row'] != i + 1:
-                            return '%s: row %d outside the window changed' % (what, i + 1)
-                if normal and nowrapflags and self._typed_ref(pre, op[1]) != post['grid']:
+                if op[0] == 'P':
+                    items = op[1]
+                    if all(it in (',', ';') or plain(it[1]) for it in items) and normal and nowrapflags:
+                        ref = self._ref(pre)
+                        ref.print_stmt(items)
+                        bad = self._same(ref, post, what + ' (plain text placement)')
+                        if bad:
+                            return bad
+                elif normal and nowrapflags and self._typed_ref(pre, op[1]) != post['grid']:
                     return '%s: typed text: rows of the window are not shifted down by one at each wrap' % what
             elif op[0] == 'C' and err is None and op[1] in (None, 0, 2) and i16(op[1]):
                 whole = op[1] == 0 or (op[1] is None and not pre['act'])
